@@ -1,6 +1,8 @@
 package PKGNAME
 
 import (
+	"go/ast"
+	"go/parser"
 	"go/token"
 	"os"
 	"path/filepath"
@@ -242,4 +244,63 @@ func vfPosShifted(a, b interface{}, delta int) bool {
 		return a == nil && b == nil
 	}
 	return vfShiftWalk(reflect.ValueOf(a), reflect.ValueOf(b), token.Pos(delta), map[[2]uintptr]bool{})
+}
+
+func vfIgnoreWalk(a, b reflect.Value, seen map[[2]uintptr]bool) bool {
+	if a.Type() != b.Type() {
+		return false
+	}
+	if a.Type() == reflect.TypeOf(token.Pos(0)) {
+		return (a.Int() == 0) == (b.Int() == 0)
+	}
+	switch a.Kind() {
+	case reflect.Ptr:
+		if a.IsNil() || b.IsNil() {
+			return a.IsNil() == b.IsNil()
+		}
+		k := [2]uintptr{a.Pointer(), b.Pointer()}
+		if seen[k] {
+			return true
+		}
+		seen[k] = true
+		return vfIgnoreWalk(a.Elem(), b.Elem(), seen)
+	case reflect.Interface:
+		if a.IsNil() || b.IsNil() {
+			return a.IsNil() == b.IsNil()
+		}
+		return vfIgnoreWalk(a.Elem(), b.Elem(), seen)
+	case reflect.Struct:
+		for i := 0; i < a.NumField(); i++ {
+			if !vfIgnoreWalk(a.Field(i), b.Field(i), seen) {
+				return false
+			}
+		}
+		return true
+	case reflect.Slice:
+		if a.IsNil() != b.IsNil() || a.Len() != b.Len() {
+			return false
+		}
+		for i := 0; i < a.Len(); i++ {
+			if !vfIgnoreWalk(a.Index(i), b.Index(i), seen) {
+				return false
+			}
+		}
+		return true
+	case reflect.Map, reflect.Func, reflect.Chan:
+		return true
+	}
+	return reflect.DeepEqual(a.Interface(), b.Interface())
+}
+
+func vfSameIgnoringPos(a, b interface{}) bool {
+	if a == nil || b == nil {
+		return a == nil && b == nil
+	}
+	return vfIgnoreWalk(reflect.ValueOf(a), reflect.ValueOf(b), map[[2]uintptr]bool{})
+}
+
+// vfParseInto is parser.ParseFile(fset, "", src, ParseComments); the bool reports parse errors.
+func vfParseInto(fset *token.FileSet, src string) (*ast.File, bool) {
+	f, err := parser.ParseFile(fset, "", src, parser.ParseComments)
+	return f, err != nil
 }
